@@ -29,6 +29,9 @@ M = [
     ("C09", "set asks for read permission only", "src/lib/process_request.rs", "                respose\n            },\n            PermissionKind::Write,\n        ),\n\n        Request::ReplicateRemove", "                respose\n            },\n            PermissionKind::Read,\n        ),\n\n        Request::ReplicateRemove"),
     ("C09", "remove is guarded on another key", "src/lib/process_request.rs", "            &key,\n            &|_db| remove_key(&key, _db),", "            &String::from(\"x\"),\n            &|_db| remove_key(&key, _db),"),
     ("C08", "get is guarded on another key", "src/lib/process_request.rs", "            &key,\n            &|_db| get_key_value(&key, &client.sender, _db),", "            &String::from(\"x\"),\n            &|_db| get_key_value(&key, &client.sender, _db),"),
+    ("C09", "auth accepts user OR password", "src/lib/process_request.rs", "if user == valid_user && password == valid_pwd {", "if user == valid_user || password == valid_pwd {"),
+    ("C09", "any user token is accepted by use-db", "src/lib/process_request.rs", "if is_valid_user_token(&token, &user_name, db) {", "if is_valid_user_token(&token, &user_name, db) || token.len() > 3 {"),
+    ("C09", "failed use-db clears the selected database", "src/lib/process_request.rs", "                            } else {\n                                Response::Error {\n                                    msg: \"Invalid token\".to_string(),\n                                }\n                            }\n                        }\n                        None => {", "                            } else {\n                                let _ = std::mem::replace(&mut *db_name_state, None);\n                                Response::Error {\n                                    msg: \"Invalid token\".to_string(),\n                                }\n                            }\n                        }\n                        None => {"),
     # ---- C10
     ("C10", "unchecked increment", "src/lib/bo.rs", "let next = match current.checked_add(inc) {\n                        Some(next) => next.to_string(),", "let next = match Some(current + inc) {\n                        Some(next) => next.to_string(),"),
     ("C10", "unchecked version step", "src/lib/bo.rs", "            self.version.saturating_add(1)\n        }", "            self.version + 1\n        }"),
